@@ -6,14 +6,14 @@ import HLV.Logic.Shapes
 namespace HLV
 open Prog
 
-variable {n : Nat} {ε α : Type}
+variable {n : Nat} {ro : RankOpt} {ε α : Type}
 
 /-! ### single operations -/
 
 theorem wp_mark (k : Nat) (c : Resp → Prog ε α) (Q : α → HG → Prop) (E : ε → HG → Prop) (g : HG)
     (hpre : (k = mkKeyBack ∨ k = mkBeginBlocking ∨ k = mkBeginTry) → ∀ x m, g.held x m = 0)
-    (h : wp (HoldSpec n) (c .ok) Q E (holdUpd g (.mark k) .ok)) :
-    wp (HoldSpec n) (.op (.mark k) c) Q E g := by
+    (h : wp (HoldSpec n ro) (c .ok) Q E (holdUpd g (.mark k) .ok)) :
+    wp (HoldSpec n ro) (.op (.mark k) c) Q E g := by
   refine ⟨hpre, fun r hr => ?_⟩
   have : r = .ok := hr
   subst this
@@ -21,8 +21,8 @@ theorem wp_mark (k : Nat) (c : Resp → Prog ε α) (Q : α → HG → Prop) (E 
 
 theorem wp_nop (o : Op) (c : Resp → Prog ε α) (Q : α → HG → Prop) (E : ε → HG → Prop) (g : HG)
     (ho : o = .keyDrop ∨ o = .keyForget ∨ (∃ p, o = .poisonSet p) ∨ (∃ p, o = .poisonClear p))
-    (h : wp (HoldSpec n) (c .ok) Q E g) :
-    wp (HoldSpec n) (.op o c) Q E g := by
+    (h : wp (HoldSpec n ro) (c .ok) Q E g) :
+    wp (HoldSpec n ro) (.op o c) Q E g := by
   rcases ho with rfl | rfl | ⟨p, rfl⟩ | ⟨p, rfl⟩ <;>
   · refine ⟨trivial, fun r hr => ?_⟩
     have : r = .ok := hr
@@ -31,8 +31,8 @@ theorem wp_nop (o : Op) (c : Resp → Prog ε α) (Q : α → HG → Prop) (E : 
 
 theorem wp_probe (o : Op) (c : Resp → Prog ε α) (Q : α → HG → Prop) (E : ε → HG → Prop) (g : HG)
     (ho : o = .keyGet ∨ ∃ p, o = .poisonGet p)
-    (h : ∀ r, r ≠ .panic → wp (HoldSpec n) (c r) Q E g) :
-    wp (HoldSpec n) (.op o c) Q E g := by
+    (h : ∀ r, r ≠ .panic → wp (HoldSpec n ro) (c r) Q E g) :
+    wp (HoldSpec n ro) (.op o c) Q E g := by
   rcases ho with rfl | ⟨p, rfl⟩
   · exact ⟨trivial, fun r hr => h r hr⟩
   · exact ⟨trivial, fun r hr => h r hr⟩
@@ -40,7 +40,7 @@ theorem wp_probe (o : Op) (c : Resp → Prog ε α) (Q : α → HG → Prop) (E 
 /-! ### `guard()` / `data_mut()` reading poison flags -/
 
 theorem readPoison_spec (ps : List PoisonId) (b : Bool) (Q : Bool → HG → Prop) (E : Unit → HG → Prop)
-    (g : HG) (h : ∀ b', Q b' g) : wp (HoldSpec n) (readPoison ps b) Q E g := by
+    (g : HG) (h : ∀ b', Q b' g) : wp (HoldSpec n ro) (readPoison ps b) Q E g := by
   induction ps generalizing b with
   | nil => exact h b
   | cons p ps ih =>
@@ -84,7 +84,7 @@ theorem guardDrop_spec (m : Mode) (items : List GuardItem) (panicking : Bool) (g
     (hc : g.held.Covers (itemsFp m items))
     (hQ : ∀ (p' : Bool) (g' : HG), g'.held = g.held.minus (itemsFp m items) → g'.depth = g.depth →
       Q p' g') :
-    wp (HoldSpec n) (guardDrop m items panicking) Q E g := by
+    wp (HoldSpec n ro) (guardDrop m items panicking) Q E g := by
   induction items generalizing g panicking with
   | nil => exact hQ _ g (by simp [itemsFp, Held.minus_nil]) rfl
   | cons it items ih =>
@@ -100,7 +100,7 @@ theorem guardDrop_spec (m : Mode) (items : List GuardItem) (panicking : Bool) (g
       obtain ⟨hc1, hc2⟩ := hc'.append
       refine ⟨hc1.pos, fun r hr => ?_⟩
       have hstep : ∀ (g1 : HG), g1.held = g.held.minus [(x, if isMutex then Mode.excl else m)] →
-          g1.depth = g.depth → ∀ pk, wp (HoldSpec n) (guardDrop m items pk) Q E g1 := by
+          g1.depth = g.depth → ∀ pk, wp (HoldSpec n ro) (guardDrop m items pk) Q E g1 := by
         intro g1 h1 h2 pk
         apply ih pk g1 (by rw [h1]; exact hc2)
         intro p' g' a b
@@ -112,7 +112,7 @@ theorem guardDrop_spec (m : Mode) (items : List GuardItem) (panicking : Bool) (g
       | ok => exact hstep _ (by rfl) (by rfl) _
       | no => exact absurd rfl hr.1
       | panic =>
-        show wp (HoldSpec n) (if panicking then Prog.abort else guardDrop m items true) Q E _
+        show wp (HoldSpec n ro) (if panicking then Prog.abort else guardDrop m items true) Q E _
         split
         · trivial
         · exact hstep _ (by rfl) (by rfl) _
@@ -125,7 +125,7 @@ theorem Held.add_sub (h : Held) (x : LockId) (m : Mode) : (h.add x m).sub x m = 
 theorem debugLeaf_spec (x : LockId) (m : Mode) (g : HG) (Q : Unit → HG → Prop) (E : Unit → HG → Prop)
     (hQ : ∀ g' : HG, g'.held = g.held → g'.depth = g.depth → Q () g')
     (hE : ∀ g' : HG, g'.held = g.held → g'.depth = g.depth → E () g') :
-    wp (HoldSpec n) (debugLeaf x m) Q E g := by
+    wp (HoldSpec n ro) (debugLeaf x m) Q E g := by
   unfold debugLeaf
   refine ⟨trivial, fun r hr => ?_⟩
   cases r with
@@ -149,7 +149,7 @@ mutual
 theorem debugFmt_spec : ∀ (S : Shape) (g : HG) (Q : Unit → HG → Prop) (E : Unit → HG → Prop),
     (∀ g' : HG, g'.held = g.held → g'.depth = g.depth → Q () g') →
     (∀ g' : HG, g'.held = g.held → g'.depth = g.depth → E () g') →
-    wp (HoldSpec n) (debugFmt S) Q E g
+    wp (HoldSpec n ro) (debugFmt S) Q E g
   | .mutex x, g, Q, E, hQ, hE => by simpa [debugFmt] using debugLeaf_spec x .excl g Q E hQ hE
   | .rwlock x, g, Q, E, hQ, hE => by simpa [debugFmt] using debugLeaf_spec x .shared g Q E hQ hE
   | .seq ss, g, Q, E, hQ, hE => by simpa [debugFmt] using debugFmtL_spec ss g Q E hQ hE
@@ -161,7 +161,7 @@ theorem debugFmt_spec : ∀ (S : Shape) (g : HG) (Q : Unit → HG → Prop) (E :
 theorem debugFmtL_spec : ∀ (ss : List Shape) (g : HG) (Q : Unit → HG → Prop) (E : Unit → HG → Prop),
     (∀ g' : HG, g'.held = g.held → g'.depth = g.depth → Q () g') →
     (∀ g' : HG, g'.held = g.held → g'.depth = g.depth → E () g') →
-    wp (HoldSpec n) (debugFmtL ss) Q E g
+    wp (HoldSpec n ro) (debugFmtL ss) Q E g
   | [], g, Q, E, hQ, _ => by simpa [debugFmtL] using hQ g rfl rfl
   | s :: ss, g, Q, E, hQ, hE => by
     simp only [debugFmtL]
@@ -197,21 +197,21 @@ theorem holdUpd_other (g : HG) (k : Nat) (r : Resp) (h : 6 ≤ k) : holdUpd g (.
 /-- a mark that carries no obligation (not `keyBack`, not the start of an acquiring call) -/
 theorem wp_mark' (k : Nat) (c : Resp → Prog ε α) (Q : α → HG → Prop) (E : ε → HG → Prop) (g : HG)
     (hk : k ≠ mkKeyBack ∧ k ≠ mkBeginBlocking ∧ k ≠ mkBeginTry)
-    (h : wp (HoldSpec n) (c .ok) Q E (holdUpd g (.mark k) .ok)) :
-    wp (HoldSpec n) (.op (.mark k) c) Q E g :=
+    (h : wp (HoldSpec n ro) (c .ok) Q E (holdUpd g (.mark k) .ok)) :
+    wp (HoldSpec n ro) (.op (.mark k) c) Q E g :=
   wp_mark k c Q E g (fun h' => by rcases h' with h' | h' | h' <;> simp_all) h
 
 /-- the start of an acquiring call: nothing may be held -/
 theorem wp_begin (k : Nat) (c : Resp → Prog ε α) (Q : α → HG → Prop) (E : ε → HG → Prop) (g : HG)
     (hh : g.held = Held.empty)
-    (h : wp (HoldSpec n) (c .ok) Q E (holdUpd g (.mark k) .ok)) :
-    wp (HoldSpec n) (.op (.mark k) c) Q E g :=
+    (h : wp (HoldSpec n ro) (c .ok) Q E (holdUpd g (.mark k) .ok)) :
+    wp (HoldSpec n ro) (.op (.mark k) c) Q E g :=
   wp_mark k c Q E g (fun _ x m => by rw [hh]; rfl) h
 
 theorem wp_keyBack (c : Resp → Prog ε α) (Q : α → HG → Prop) (E : ε → HG → Prop) (g : HG)
     (hh : g.held = Held.empty)
-    (h : wp (HoldSpec n) (c .ok) Q E g) :
-    wp (HoldSpec n) (.op (.mark mkKeyBack) c) Q E g :=
+    (h : wp (HoldSpec n ro) (c .ok) Q E g) :
+    wp (HoldSpec n ro) (.op (.mark mkKeyBack) c) Q E g :=
   wp_mark mkKeyBack c Q E g (fun _ x m => by rw [hh]; rfl) (by simpa using h)
 
 /-! ### closure / guard bodies -/
@@ -250,7 +250,7 @@ theorem bodySteps_spec (C : Ctx) (S : Shape) (m : Mode) (body : List BodyStep) (
     (hok : ∀ b ∈ body, stepOK S m b)
     (hQ : ∀ g' : HG, g'.held = g.held → g'.depth = g.depth → Q () g')
     (hE : ∀ g' : HG, g'.held = g.held → g'.depth = g.depth → E () g') :
-    wp (HoldSpec n) (bodySteps C S body) Q E g := by
+    wp (HoldSpec n ro) (bodySteps C S body) Q E g := by
   induction body generalizing g with
   | nil => exact hQ g rfl rfl
   | cons b body ih =>
@@ -334,8 +334,9 @@ macro "out10" : tactic =>
 /-- The sessions a well-typed client can write: the collection is lockable, the guard is not
 leaked with `mem::forget` (C01/C05 speak about guards that are dropped), the body uses the
 guard's positions as their types allow. -/
-structure SesOK (C : Ctx) (ses : Session) : Prop where
+structure SesOK (ro : RankOpt) (C : Ctx) (ses : Session) : Prop where
   lockable : lockable (C.shape ses.coll) = true
+  shapeOK : ShapeOK ro C.W (C.shape ses.coll)
   noForget : ses.exit ≠ .forget
   body : ∀ b ∈ ses.body, stepOK (C.shape ses.coll) ses.mode b
 
@@ -345,7 +346,7 @@ theorem empty_plus_minus (l : Fp) : (Held.empty.plus l).minus l = Held.empty := 
 theorem finish_spec (out : Nat) (u : UserSt) (dropKey : Bool) (g : HG)
     (Q : Nat × UserSt → HG → Prop) (E : Unit → HG → Prop)
     (hh : g.held = Held.empty) (hQ : Q (out, u) g) :
-    wp (HoldSpec n)
+    wp (HoldSpec n ro)
       (if dropKey then op .keyDrop fun _ => op (.mark mkKeyBack) fun _ => done (out, u)
        else op (.mark mkKeyBack) fun _ => done (out, u)) Q E g := by
   split
@@ -354,10 +355,10 @@ theorem finish_spec (out : Nat) (u : UserSt) (dropKey : Bool) (g : HG)
 
 theorem guardPhase_spec (C : Ctx) (ses : Session) (u : UserSt) (g : HG)
     (Q : Nat × UserSt → HG → Prop) (E : Unit → HG → Prop)
-    (hok : SesOK C ses)
+    (hok : SesOK ro C ses)
     (hh : g.held = Held.empty.plus (holdsOf (C.shape ses.coll) ses.mode)) (hd : g.depth ≤ 1)
     (hQ : ∀ (r : Nat × UserSt) (g' : HG), 10 ≤ r.1 → g'.held = Held.empty → g'.depth = 0 → Q r g') :
-    wp (HoldSpec n) (guardPhase C (C.shape ses.coll) ses u) Q E g := by
+    wp (HoldSpec n ro) (guardPhase C (C.shape ses.coll) ses u) Q E g := by
   unfold guardPhase
   rw [wp_bind]
   apply readPoison_spec
@@ -368,8 +369,8 @@ theorem guardPhase_spec (C : Ctx) (ses : Session) (u : UserSt) (g : HG)
   -- dropping the guard from a state that holds exactly the leaves, then the key
   have hdrop : ∀ (pk : Bool) (g1 : HG) (k : Bool → Prog Unit (Nat × UserSt)),
       g1.held = Held.empty.plus (holdsOf (C.shape ses.coll) ses.mode) → g1.depth = 0 →
-      (∀ (p' : Bool) (g2 : HG), g2.held = Held.empty → g2.depth = 0 → wp (HoldSpec n) (k p') Q E g2) →
-      wp (HoldSpec n) (Prog.bind (guardDrop ses.mode (guardItems (C.shape ses.coll)) pk) k) Q E g1 := by
+      (∀ (p' : Bool) (g2 : HG), g2.held = Held.empty → g2.depth = 0 → wp (HoldSpec n ro) (k p') Q E g2) →
+      wp (HoldSpec n ro) (Prog.bind (guardDrop ses.mode (guardItems (C.shape ses.coll)) pk) k) Q E g1 := by
     intro pk g1 k h1 h2 hk
     rw [wp_bind]
     apply guardDrop_spec
@@ -379,7 +380,7 @@ theorem guardPhase_spec (C : Ctx) (ses : Session) (u : UserSt) (g : HG)
       rw [a, hfp, h1, empty_plus_minus]
   have hafter : ∀ (g1 : HG), g1.held = Held.empty.plus (holdsOf (C.shape ses.coll) ses.mode) →
       g1.depth = 0 →
-      wp (HoldSpec n)
+      wp (HoldSpec n ro)
         (Prog.bind (guardDrop ses.mode (guardItems (C.shape ses.coll)) true) fun _ =>
           op .keyDrop fun _ => op (.mark mkKeyBack) fun _ => done (mkOutPanic, u)) Q E g1 := by
     intro g1 h1 h2
@@ -422,7 +423,7 @@ theorem plus_shapeFp (C : Ctx) (S : Shape) (m : Mode) (hl : lockable S = true) :
 theorem callEnd_spec (r : Nat × UserSt) (g : HG) (Q : Nat × UserSt → HG → Prop) (E : Unit → HG → Prop)
     (hr : 10 ≤ r.1) (hh : g.held = Held.empty) (hd : g.depth ≤ 1)
     (hQ : ∀ (r : Nat × UserSt) (g' : HG), 10 ≤ r.1 → g'.held = Held.empty → g'.depth = 0 → Q r g') :
-    wp (HoldSpec n) (op (.mark mkEndCall) fun _ => op (.mark mkKeyBack) fun _ => done r) Q E g := by
+    wp (HoldSpec n ro) (op (.mark mkEndCall) fun _ => op (.mark mkKeyBack) fun _ => done r) Q E g := by
   apply wp_mark' _ _ _ _ _ (by decide)
   simp only [holdUpd_endCall]
   have hh' : ({ g with depth := g.depth - 1 } : HG).held = Held.empty := hh
@@ -431,10 +432,10 @@ theorem callEnd_spec (r : Nat × UserSt) (g : HG) (Q : Nat × UserSt → HG → 
 
 theorem guardSession_spec (C : Ctx) (ses : Session) (u : UserSt) (g : HG)
     (Q : Nat × UserSt → HG → Prop) (E : Unit → HG → Prop)
-    (hok : SesOK C ses) (hh : g.held = Held.empty) (hd : g.depth = 0)
+    (hok : SesOK ro C ses) (hh : g.held = Held.empty) (hd : g.depth = 0)
     (hQ : ∀ (r : Nat × UserSt) (g' : HG), 10 ≤ r.1 → g'.held = Held.empty → g'.depth = 0 → Q r g') :
-    wp (HoldSpec n) (guardSession C (C.shape ses.coll) ses u) Q E g := by
-  have hL := toRaw_isLock (n := n) C.W (C.shape ses.coll) hok.lockable
+    wp (HoldSpec n ro) (guardSession C (C.shape ses.coll) ses u) Q E g := by
+  have hL := toRaw_isLock (n := n) (ro := ro) C.W (C.shape ses.coll) hok.lockable hok.shapeOK
   unfold guardSession
   split
   · -- try_lock / try_read
@@ -455,7 +456,7 @@ theorem guardSession_spec (C : Ctx) (ses : Session) (u : UserSt) (g : HG)
     apply wp_begin _ _ _ _ _ hh
     simp only [holdUpd_beginBlocking]
     rw [wp_bindX]
-    apply hL.acq _ _ _ _ hd
+    apply hL.acq _ _ _ _ hd (by rw [hh]; exact LowFp_empty _ _)
     · apply guardPhase_spec C ses _ _ Q E hok _ (by show g.depth ≤ 1; omega) hQ
       show g.held.plus _ = _
       rw [hh]; exact plus_shapeFp C _ _ hok.lockable
@@ -464,7 +465,7 @@ theorem guardSession_spec (C : Ctx) (ses : Session) (u : UserSt) (g : HG)
       exact callEnd_spec _ _ Q E (by out10) (h1.trans hh) (by rw [h2]; omega) hQ
 
 theorem dropKeyIf_spec (k : KeyStyle) (cont : Prog Unit α) (Q : α → HG → Prop) (E : Unit → HG → Prop)
-    (g : HG) (h : wp (HoldSpec n) cont Q E g) : wp (HoldSpec n) (dropKeyIf k cont) Q E g := by
+    (g : HG) (h : wp (HoldSpec n ro) cont Q E g) : wp (HoldSpec n ro) (dropKeyIf k cont) Q E g := by
   unfold dropKeyIf
   split
   · exact wp_nop _ _ _ _ _ (Or.inl rfl) h
@@ -474,26 +475,26 @@ theorem scopedUnwound_spec (ses : Session) (u' : UserSt) (g1 : HG)
     (Q : Nat × UserSt → HG → Prop) (E : Unit → HG → Prop)
     (a : g1.held = Held.empty) (b : g1.depth ≤ 1)
     (hQ : ∀ (r : Nat × UserSt) (g' : HG), 10 ≤ r.1 → g'.held = Held.empty → g'.depth = 0 → Q r g') :
-    wp (HoldSpec n) (scopedUnwound ses u') Q E g1 :=
+    wp (HoldSpec n ro) (scopedUnwound ses u') Q E g1 :=
   dropKeyIf_spec _ _ _ _ _ (callEnd_spec _ g1 Q E (by out10) a b hQ)
 
 theorem scopedHeld_spec (C : Ctx) (ses : Session) (u' : UserSt) (g1 : HG)
     (Q : Nat × UserSt → HG → Prop) (E : Unit → HG → Prop)
-    (hok : SesOK C ses)
+    (hok : SesOK ro C ses)
     (h1 : g1.held = Held.empty.plus (holdsOf (C.shape ses.coll) ses.mode)) (hd1 : g1.depth ≤ 1)
     (hQ : ∀ (r : Nat × UserSt) (g' : HG), 10 ≤ r.1 → g'.held = Held.empty → g'.depth = 0 → Q r g') :
-    wp (HoldSpec n) (scopedHeld C (C.shape ses.coll) ses u') Q E g1 := by
-  have hL := toRaw_isLock (n := n) C.W (C.shape ses.coll) hok.lockable
+    wp (HoldSpec n ro) (scopedHeld C (C.shape ses.coll) ses u') Q E g1 := by
+  have hL := toRaw_isLock (n := n) (ro := ro) C.W (C.shape ses.coll) hok.lockable hok.shapeOK
   have hplus := plus_shapeFp C (C.shape ses.coll) ses.mode hok.lockable
   have hunw : ∀ (g2 : HG), g2.held = Held.empty → g2.depth ≤ 1 →
-      wp (HoldSpec n) (scopedUnwound ses u') Q E g2 :=
+      wp (HoldSpec n ro) (scopedUnwound ses u') Q E g2 :=
     fun g2 a b => scopedUnwound_spec ses u' g2 Q E a b hQ
   -- releasing the whole collection from a state that holds exactly its leaves
   have hrel : ∀ (g2 : HG) (Q' : Unit → HG → Prop) (E' : Unit → HG → Prop),
       g2.held = Held.empty.plus (holdsOf (C.shape ses.coll) ses.mode) →
       (∀ g3 : HG, g3.held = Held.empty → g3.depth = g2.depth → Q' () g3) →
       (∀ g3 : HG, g3.held = Held.empty → g3.depth = g2.depth → E' () g3) →
-      wp (HoldSpec n) ((toRaw C.W (C.shape ses.coll)).rel ses.mode) Q' E' g2 := by
+      wp (HoldSpec n ro) ((toRaw C.W (C.shape ses.coll)).rel ses.mode) Q' E' g2 := by
     intro g2 Q' E' h2 hq he
     have hcov : g2.held.Covers (shapeFp C.W (C.shape ses.coll) ses.mode) := by
       rw [h2, ← hplus]; exact Held.covers_plus _ _
@@ -506,12 +507,12 @@ theorem scopedHeld_spec (C : Ctx) (ses : Session) (u' : UserSt) (g1 : HG)
   -- the unwind handler of the closure: (poison,) release everything, keep unwinding
   have hhandler : ∀ (g2 : HG), g2.held = Held.empty.plus (holdsOf (C.shape ses.coll) ses.mode) →
       g2.depth ≤ 1 →
-      wp (HoldSpec n)
+      wp (HoldSpec n ro)
         (match isPoisonableTop (C.shape ses.coll) with
           | some p => op (.poisonSet p) fun _ => (toRaw C.W (C.shape ses.coll)).rel ses.mode
           | none => (toRaw C.W (C.shape ses.coll)).rel ses.mode)
-        (fun _ g'' => wp (HoldSpec n) (scopedUnwound ses u') Q E g'')
-        (fun _ g'' => wp (HoldSpec n) (scopedUnwound ses u') Q E g'') g2 := by
+        (fun _ g'' => wp (HoldSpec n ro) (scopedUnwound ses u') Q E g'')
+        (fun _ g'' => wp (HoldSpec n ro) (scopedUnwound ses u') Q E g'') g2 := by
     intro g2 a' b'
     split
     · rename_i p _
@@ -563,10 +564,10 @@ theorem scopedHeld_spec (C : Ctx) (ses : Session) (u' : UserSt) (g1 : HG)
 
 theorem scopedSession_spec (C : Ctx) (ses : Session) (u : UserSt) (g : HG)
     (Q : Nat × UserSt → HG → Prop) (E : Unit → HG → Prop)
-    (hok : SesOK C ses) (hh : g.held = Held.empty) (hd : g.depth = 0)
+    (hok : SesOK ro C ses) (hh : g.held = Held.empty) (hd : g.depth = 0)
     (hQ : ∀ (r : Nat × UserSt) (g' : HG), 10 ≤ r.1 → g'.held = Held.empty → g'.depth = 0 → Q r g') :
-    wp (HoldSpec n) (scopedSession C (C.shape ses.coll) ses u) Q E g := by
-  have hL := toRaw_isLock (n := n) C.W (C.shape ses.coll) hok.lockable
+    wp (HoldSpec n ro) (scopedSession C (C.shape ses.coll) ses u) Q E g := by
+  have hL := toRaw_isLock (n := n) (ro := ro) C.W (C.shape ses.coll) hok.lockable hok.shapeOK
   have hplus := plus_shapeFp C (C.shape ses.coll) ses.mode hok.lockable
   unfold scopedSession
   generalize (match ses.key with | .owned => ({ u with keys := u.keys - 1 } : UserSt) | .lent => u) = u'
@@ -589,7 +590,7 @@ theorem scopedSession_spec (C : Ctx) (ses : Session) (u : UserSt) (g : HG)
     apply wp_begin _ _ _ _ _ hh
     simp only [holdUpd_beginBlocking]
     rw [wp_bindX]
-    apply hL.acq _ _ _ _ hd
+    apply hL.acq _ _ _ _ hd (by rw [hh]; exact LowFp_empty _ _)
     · apply scopedHeld_spec C ses _ _ Q E hok _ (by show g.depth ≤ 1; omega) hQ
       show g.held.plus _ = _
       rw [hh]; exact hplus
@@ -598,15 +599,15 @@ theorem scopedSession_spec (C : Ctx) (ses : Session) (u : UserSt) (g : HG)
 
 /-! ### statements and programs -/
 
-def StmtOK (C : Ctx) : Stmt → Prop
-  | .ses ses => SesOK C ses
+def StmtOK (ro : RankOpt) (C : Ctx) : Stmt → Prop
+  | .ses ses => SesOK ro C ses
   | _ => True
 
 theorem session_spec (C : Ctx) (ses : Session) (u : UserSt) (g : HG)
     (Q : Nat × UserSt → HG → Prop) (E : Unit → HG → Prop)
-    (hok : SesOK C ses) (hh : g.held = Held.empty) (hd : g.depth = 0)
+    (hok : SesOK ro C ses) (hh : g.held = Held.empty) (hd : g.depth = 0)
     (hQ : ∀ (r : Nat × UserSt) (g' : HG), 10 ≤ r.1 → g'.held = Held.empty → g'.depth = 0 → Q r g') :
-    wp (HoldSpec n) (session C ses u) Q E g := by
+    wp (HoldSpec n ro) (session C ses u) Q E g := by
   unfold session
   split
   · exact hQ _ g (by out10) hh hd
@@ -618,7 +619,7 @@ theorem session_spec (C : Ctx) (ses : Session) (u : UserSt) (g : HG)
 
 theorem wp_outMark (k : Nat) (u : UserSt) (g : HG) (Q : UserSt → HG → Prop) (E : Unit → HG → Prop)
     (hk : 6 ≤ k) (hQ : Q u g) :
-    wp (HoldSpec n) (op (.mark k) fun _ => done u) Q E g := by
+    wp (HoldSpec n ro) (op (.mark k) fun _ => done u) Q E g := by
   apply wp_mark' _ _ _ _ _ (by simp only [mkKeyBack, mkBeginBlocking, mkBeginTry]; omega)
   rw [holdUpd_other _ _ _ hk]
   exact hQ
@@ -628,9 +629,9 @@ ends (it never unwinds: the client catches panics per statement) in a state in w
 thread holds nothing — for every answer sequence with at most `n` panicking answers. -/
 theorem stmt_spec (C : Ctx) (st : Stmt) (u : UserSt) (g : HG)
     (Q : UserSt → HG → Prop) (E : Unit → HG → Prop)
-    (hok : StmtOK C st) (hh : g.held = Held.empty) (hd : g.depth = 0)
+    (hok : StmtOK ro C st) (hh : g.held = Held.empty) (hd : g.depth = 0)
     (hQ : ∀ (u' : UserSt) (g' : HG), g'.held = Held.empty → g'.depth = 0 → Q u' g') :
-    wp (HoldSpec n) (stmt C st u) Q E g := by
+    wp (HoldSpec n ro) (stmt C st u) Q E g := by
   cases st with
   | ses ses =>
     simp only [stmt]
@@ -689,9 +690,9 @@ theorem stmt_spec (C : Ctx) (st : Stmt) (u : UserSt) (g : HG)
 /-- **Whole programs.** -/
 theorem program_spec (C : Ctx) (prog : List Stmt) (u : UserSt) (g : HG)
     (Q : UserSt → HG → Prop) (E : Unit → HG → Prop)
-    (hok : ∀ st ∈ prog, StmtOK C st) (hh : g.held = Held.empty) (hd : g.depth = 0)
+    (hok : ∀ st ∈ prog, StmtOK ro C st) (hh : g.held = Held.empty) (hd : g.depth = 0)
     (hQ : ∀ (u' : UserSt) (g' : HG), g'.held = Held.empty → g'.depth = 0 → Q u' g') :
-    wp (HoldSpec n) (program C prog u) Q E g := by
+    wp (HoldSpec n ro) (program C prog u) Q E g := by
   induction prog generalizing u g with
   | nil => exact hQ u g hh hd
   | cons st prog ih =>
